@@ -18,6 +18,9 @@ func emit(op string, impl string) {
 		panic("bad characters in op/impl: " + op + " / " + impl)
 	}
 	fmt.Fprintf(out, "%s\t%s\n", op, impl)
+	if raceLog != "" {
+		raceAfter(op)
+	}
 }
 
 // setup lines are ops whose answer is compared too (defmsg).
@@ -71,6 +74,10 @@ func main() {
 			genC13(rng, *n, *tier)
 		case "C14":
 			genC14(rng, *n, *tier)
+		case "C15":
+			genC15(rng, *n, *tier)
+		case "C16":
+			genC16(rng, *n, *tier)
 		case "C17":
 			genC17(rng, *n, *tier)
 		case "C19":
